@@ -186,16 +186,21 @@ class Body:
                 pl = s["pl"]
                 if not pl["p"]:
                     d[pl["l"]].append(("stmt", bi, si, s))
+                elif pl["p"][0]["k"] == "deref":
+                    d[("through", pl["l"])].append(("stmt", bi, si, s))
                 else:
                     d[("partial", pl["l"])].append(("stmt", bi, si, s))
             elif s["k"] == "set_discr":
-                d[("partial", s["pl"]["l"])].append(("stmt", bi, si, s))
+                kind = "through" if s["pl"]["p"] and s["pl"]["p"][0]["k"] == "deref" else "partial"
+                d[(kind, s["pl"]["l"])].append(("stmt", bi, si, s))
         for bi, b in enumerate(self.blocks):
             t = b["term"]
             if t["k"] == "call":
                 pl = t["dest"]
                 if not pl["p"]:
                     d[pl["l"]].append(("call", bi, None, t))
+                elif pl["p"][0]["k"] == "deref":
+                    d[("through", pl["l"])].append(("call", bi, None, t))
                 else:
                     d[("partial", pl["l"])].append(("call", bi, None, t))
         self._defs = d
@@ -561,6 +566,11 @@ class Origins:
             if kind == "call":
                 return O("call", self.callee_name(s), bi, tuple(self.operand(a, depth + 1) for a in s["args"]))
             return self.rvalue(s["rv"], depth + 1)
+        if len(ds) > 1 and not partial and all(d[0] == "stmt" and d[3]["rv"]["k"] == "copy_for_deref" for d in ds):
+            # a deref temporary re-loaded from the same place several times (Derefer pass)
+            os_ = [self.rvalue(d[3]["rv"], depth + 1) for d in ds]
+            if all(o == os_[0] for o in os_):
+                return os_[0]
         if len(ds) == 0 and partial:
             return O("partial", l, len(partial))
         if len(ds) == 0:
